@@ -26,7 +26,10 @@ func (i *SelectTagsPlanner) Process(ctx *shared.PlannerContext) (sql.ISelect, er
 
 	withMain := sql.NewWith(main, "select_spans")
 
-	preSelectTags := sql.NewSelect().Select(sql.NewRawObject("span_id")).From(sql.NewWithRef(withMain))
+	// a span id is unique within its trace only: spans are identified by (trace_id, span_id)
+	preSelectTags := sql.NewSelect().
+		Select(sql.NewRawObject("trace_id"), sql.NewRawObject("span_id")).
+		From(sql.NewWithRef(withMain))
 	withPreSelectTags := sql.NewWith(preSelectTags, "pre_select_tags")
 
 	res := sql.NewSelect().
@@ -38,7 +41,7 @@ func (i *SelectTagsPlanner) Process(ctx *shared.PlannerContext) (sql.ISelect, er
 			sql.Le(sql.NewRawObject("date"), sql.NewStringVal(ctx.To.UTC().Format("2006-01-02"))),
 			sql.Ge(sql.NewRawObject("traces_idx.timestamp_ns"), sql.NewIntVal(ctx.From.UnixNano())),
 			sql.Lt(sql.NewRawObject("traces_idx.timestamp_ns"), sql.NewIntVal(ctx.To.UnixNano())),
-			sql.NewIn(sql.NewRawObject("span_id"), sql.NewWithRef(withPreSelectTags)),
+			sql.NewIn(sql.NewRawObject("(traces_idx.trace_id, traces_idx.span_id)"), sql.NewWithRef(withPreSelectTags)),
 		)).GroupBy(sql.NewRawObject("key"))
 	if ctx.Limit > 0 {
 		res.OrderBy(sql.NewOrderBy(sql.NewRawObject("key"), sql.ORDER_BY_DIRECTION_ASC)).
